@@ -8,8 +8,11 @@ Streams (each judged twice: implementation-vs-Spec and model-vs-implementation):
                   builds of `vharness`: outputs must be identical, and every equality-like result must be the
                   one IEEE/identity semantics demands (Python oracle on tracked values).
   fixtures        the repository's fixture corpus under both builds, outputs diffed.
-Known findings D8 (boxed `==`/hash bitwise on numbers) and D9 (enum `Undefined == Undefined` false) are
-replayed from their witnesses; generators and judges exclude exactly their signatures.
+  corpus          corpus/C14/*.json run first: minimised past failures and the witnesses of the repaired defects
+                  D8 (boxed `==`/hash bitwise on numbers) and D9 (enum `Undefined == Undefined` false), each with
+                  its expected output.  No signature is excluded any more: generators and judges cover ±0, NaN and
+                  `undefined` pairs like every other pair.
+Open findings of C14 (none at present) would be replayed from known_findings.jsonl by `replay_known`.
 """
 import concurrent.futures
 import glob
@@ -30,9 +33,6 @@ DRV = os.path.join(common.LEAN, ".lake", "build", "bin", "drv_nanbox")
 BUILDS = ("enum", "boxed")
 NOBJ = 18
 CMP_FIELDS = ("kind", "nil", "undef", "bool", "false", "num", "obj", "tonum", "tobool", "toobj")
-
-D8 = "D8-nanbox-bitwise-eq"
-D9 = "D9-enum-undefined-eq"
 
 
 def vh_path(build):
@@ -204,22 +204,9 @@ def is_zero_bits(b):
     return (b & 0x7fffffffffffffff) == 0
 
 
-def known_eq_signature(build, sa, sb):
-    """The decidable signatures of D8/D9 at the value level (mirrors `eqExcluded` of the Lean model)."""
-    if build == "boxed" and sa.startswith("num ") and sb.startswith("num "):
-        x, y = int(sa[4:], 16), int(sb[4:], 16)
-        if is_zero_bits(x) and is_zero_bits(y) and x != y:
-            return D8
-        if is_nan_bits(x) and x == y:
-            return D8
-    if build == "enum" and sa == "undef" and sb == "undef":
-        return D9
-    return None
-
-
 def judge_value(build, specs, reqs, H, M, S, notes):
-    """Returns dict(spec_fail=[..], tie_fail=[..], known={id: n}, stats={..})."""
-    res = {"spec_fail": [], "tie_fail": [], "known": {}, "stats": {}}
+    """Returns dict(spec_fail=[..], tie_fail=[..], stats={..})."""
+    res = {"spec_fail": [], "tie_fail": [], "stats": {}}
     n = len(reqs)
     if notes or len(H) != n or len(M) != n or len(S) != n:
         res["tie_fail"].append({"what": "engine failure or missing output lines", "notes": notes,
@@ -274,10 +261,7 @@ def judge_value(build, specs, reqs, H, M, S, notes):
             okset = set(okidx)
             diff = [(a, b) for (a, b) in (hp ^ sp) if a in okset and b in okset]
             for a, b in sorted(diff):
-                sig = known_eq_signature(build, specs[a], specs[b])
-                if sig:
-                    res["known"][sig] = res["known"].get(sig, 0) + 1
-                elif len(res["spec_fail"]) < 5:
+                if len(res["spec_fail"]) < 5:
                     res["spec_fail"].append({"what": "== differs from the Spec (IEEE on numbers, identity otherwise)",
                                              "specs": [specs[a], specs[b]], "impl": (a, b) in hp, "spec": (a, b) in sp})
             res["stats"]["eq_pairs_true"] = len(hp)
@@ -316,8 +300,6 @@ def value_stream(ctx, build, nrand, seed_mix=0, first_chunk=0):
         r = judge_value(build, specs, reqs, H, M, S, notes)
         st = {k2: v for k2, v in r["stats"].items() if isinstance(v, int)}
         st["chunks"] = 1
-        for fid, cnt in r["known"].items():
-            st["known_pairs_" + fid] = cnt
         ctx.stream_stat("value/" + build, **st)
         if "kinds" in r["stats"] and chunk == 0:
             ctx.stream_stat("value/" + build, kinds=r["stats"]["kinds"])
@@ -378,17 +360,6 @@ def spec_eq(a, b):
     return type(a) == type(b) and a == b
 
 
-def in_signature(a, b):
-    """D8: a zero of each sign, or two NaNs, meet in an equality test (NaN patterns are not tracked
-    exactly, so every NaN/NaN comparison is excluded)."""
-    if is_num(a) and is_num(b):
-        if a == 0 and b == 0 and math.copysign(1, a) != math.copysign(1, b):
-            return True
-        if math.isnan(a) and math.isnan(b):
-            return True
-    return False
-
-
 def is_special(v):
     return is_num(v) and (v == 0 or math.isnan(v) or math.isinf(v) or abs(v) < 2.3e-308)
 
@@ -402,10 +373,19 @@ class ProgGen:
         self.rng = rng
         self.items = []      # (source line, prints one line?, expected text or None)
         self.vars = []       # (name, python value)
-        self.stats = {"eq_ops": 0, "eq_special": 0, "map_ops": 0, "has_index": 0, "skipped_signature": 0, "arith": 0}
+        self.stats = {"eq_ops": 0, "eq_special": 0, "eq_zero_pair": 0, "eq_nan_pair": 0, "map_ops": 0, "has_index": 0, "arith": 0,
+                      "map_dumps": 0}
 
     def emit(self, src, exp=None, prints=True):
         self.items.append((src, prints, exp))
+
+    def note_pair(self, a, b):
+        """count the equality tests that meet the signature of the repaired D8"""
+        if is_num(a) and is_num(b):
+            if a == 0 and b == 0 and math.copysign(1, a) != math.copysign(1, b):
+                self.stats["eq_zero_pair"] += 1
+            if math.isnan(a) and math.isnan(b):
+                self.stats["eq_nan_pair"] += 1
 
     def num_expr(self, depth=0):
         rng = self.rng
@@ -457,9 +437,13 @@ class ProgGen:
             r = rng.random()
             if r < 0.30:
                 (sa, a), (sb, b) = self.any_expr(), self.any_expr()
-                if in_signature(a, b):
-                    self.stats["skipped_signature"] += 1
-                    continue
+                if is_num(a) and rng.random() < 0.2:
+                    # the pairs on which bitwise and IEEE equality differ: a zero of each sign, NaN with NaN
+                    if a == 0:
+                        sb, b = rng.choice([x for x in ATOMS if x[1] == 0])
+                    elif math.isnan(a):
+                        sb, b = rng.choice([(sa, a)] + [x for x in ATOMS if math.isnan(x[1])])
+                self.note_pair(a, b)
                 op = rng.choice(["==", "!=", "equals"])
                 e = spec_eq(a, b)
                 self.stats["eq_ops"] += 1
@@ -490,9 +474,8 @@ class ProgGen:
             elif r < 0.72:
                 items = [self.any_expr() for _ in range(rng.randint(0, 5))]
                 sx, x = self.any_expr() if rng.random() < 0.5 or not items else rng.choice(items)
-                if any(in_signature(x, v) for _, v in items):
-                    self.stats["skipped_signature"] += 1
-                    continue
+                for _, v in items:
+                    self.note_pair(x, v)
                 self.stats["has_index"] += 1
                 self.stats["eq_special"] += is_special(x)
                 tup = rng.random() < 0.35 and len(items) >= 2
@@ -506,17 +489,33 @@ class ProgGen:
                 if not maps or (len(maps) < 3 and rng.random() < 0.2):
                     name = "m%d" % len(maps)
                     self.emit("let %s = {};" % name, prints=False)
-                    maps.append((name, []))
+                    pre = []
+                    if rng.random() < 0.3:
+                        # a table of hundreds of slots: keys whose hashes differ (only) in high-order input bytes no longer
+                        # meet by accident, as they do in a table of four (FNV: 0 / -0 hashed as raw words differ in the last byte)
+                        lo, n = rng.choice([1, 1000, -300]), rng.randint(60, 420)
+                        self.emit("let i%s = %d; while i%s < %d { %s[i%s] = i%s; i%s = i%s + 1; }" % (name, lo, name, lo + n, name, name, name, name, name),
+                                  prints=False)
+                        pre = [(str(k), float(k), str(k)) for k in range(lo, lo + n)]
+                        self.stats["map_prefilled"] = self.stats.get("map_prefilled", 0) + 1
+                    maps.append((name, pre))
                 name, entries = rng.choice(maps)
                 sk, k = self.any_expr() if rng.random() < 0.6 or not entries else rng.choice([(s, v) for s, v, _ in entries])
-                if any(in_signature(k, ek) for _, ek, _ in entries):
-                    self.stats["skipped_signature"] += 1
-                    continue
+                for _, ek, _ in entries:
+                    self.note_pair(k, ek)
                 self.stats["map_ops"] += 1
                 self.stats["eq_special"] += is_special(k)
                 pos = next((i for i, (_, ek, _) in enumerate(entries) if spec_eq(k, ek)), None)
-                op = rng.choice(["set", "set", "iset", "insert", "get", "get", "iget", "has", "has", "remove", "len"])
+                op = rng.choice(["set", "set", "iset", "insert", "get", "get", "iget", "has", "has", "remove", "len", "dump"])
                 val = str(rng.randint(100, 999))
+                if op == "dump":
+                    # iteration order: a number feeds the hasher the same writes in both builds (C14_hash_numbers_agree) and
+                    # the hasher is deterministic, so a map with number keys only prints identically.  Not dumped: object
+                    # keys (order depends on addresses) and nil/bool keys (open finding DC14.1).
+                    if len(entries) <= 1 or all(is_num(ek) for _, ek, _ in entries):
+                        self.stats["map_dumps"] += 1
+                        self.emit("print(%s);" % name, None)
+                    continue
                 if op in ("set", "iset", "insert"):
                     # a NaN key is never found again under IEEE equality: every store adds an entry
                     old = entries[pos][2] if pos is not None else None
@@ -552,8 +551,7 @@ class ProgGen:
                                       ("print(%s == nil);", lambda v: lay_bool(v is None)),
                                       ("print('<${%s == %s}>');", None)])
                 if f is None:
-                    if in_signature(v, v):
-                        continue
+                    self.note_pair(v, v)
                     self.emit(tmpl % (s, s), "<%s>" % lay_bool(spec_eq(v, v)))
                 else:
                     self.emit(tmpl % s, f(v))
@@ -723,8 +721,9 @@ def report_program_failure(ctx, fail, name):
 # ---------------------------------------------------------------------------------------------
 # fixtures
 
-SKIP_FIXTURES = ("regression/native_stack_overvflow.lay",   # D12: aborts the host
-                 "/stdin/", "lox_interpreter/lox.lay")       # need stdin
+SKIP_FIXTURES = ("/stdin/", "lox_interpreter/lox.lay",       # need stdin
+                 # outcome depends on the clock, the environment or randomness: flaky in a two-build differential
+                 "native/clock.lay", "/benchmark/", "/std_lib/env/", "math/utils/rand.lay", "/std_lib/io/")
 SLOW_FIXTURES = ("limit/too_many_module_symbols.lay",)       # 20 s of compile errors: thorough tier only
 
 
@@ -762,6 +761,8 @@ def fixture_stream(ctx):
         k = r.get("status", "?").split(":")[0]
         st[k] = st.get(k, 0) + 1
     ctx.stream_stat("fixtures", files=len(files), statuses=st, flaky=len(flaky), differing=len(real), steps=steps)
+    if flaky:
+        ctx.cov.setdefault("flaky_fixtures", []).extend(os.path.relpath(f, common.REPO) for f in flaky[:10])
     ctx.cov["traces_validated_against_impl"] += 2 * len(files)
     for f in files:
         ctx.count_case(["fixture", os.path.relpath(f, common.REPO)], nontrivial=True)
@@ -783,7 +784,8 @@ def fixture_stream(ctx):
 
 
 def replay_known(ctx):
-    """Replay the committed witnesses of D8/D9; KNOWN-FINDING line while they still reproduce."""
+    """Replay the committed witnesses of the open findings C14 owns (programs: the two builds still differ;
+    value cases: the Spec still fails); KNOWN-FINDING line while they still reproduce."""
     still = {}
     for rec in common.load_findings(PROP):
         wdir = os.path.join(common.VERIF, rec["witness"])
@@ -798,7 +800,7 @@ def replay_known(ctx):
             w = json.load(open(vf))
             reqs, H, M, S, notes = run_value(w["build"], w["specs"])
             r = judge_value(w["build"], w["specs"], reqs, H, M, S, notes)
-            if r["known"].get(rec["id"]) or r["spec_fail"]:
+            if r["spec_fail"]:
                 reproduced.append(os.path.basename(vf))
         still[rec["id"]] = reproduced
         if reproduced:
@@ -867,6 +869,31 @@ def run(ctx):
     spec_found = False
     tie_broken = []
     extras = {}
+    # -- corpus first: minimised past failures and the witnesses of repaired defects (D8, D9) -------
+    corpus = os.path.join(common.VERIF, "corpus", PROP)
+    if os.path.isdir(corpus) and not os.environ.get("C14_NO_CORPUS"):   # the knob: do the generated streams alone catch a change?
+        ncorpus = 0
+        for f in sorted(os.listdir(corpus)):
+            rec = json.load(open(os.path.join(corpus, f)))
+            if rec.get("engine") == "program":
+                res = program_fails(rec["source"], rec.get("expect"))
+                if res:
+                    ctx.cov["impl_vs_spec_failures"] += 1
+                    ctx.violation("corpus_" + f.replace(".json", ""), dict(rec, kind="implementation-vs-spec", what="corpus case fails again: " + WHAT[res[0]],
+                                                                          failure=res[0], detail=res[1]))
+                    spec_found = True
+            elif rec.get("engine") == "value" and os.path.exists(DRV):
+                fails, detail = confirm_value(rec["build"], rec["specs"])
+                if fails:
+                    ctx.cov["impl_vs_spec_failures"] += 1
+                    ctx.violation("corpus_" + f.replace(".json", ""), dict(rec, kind="implementation-vs-spec", what="corpus case fails again",
+                                                                          first=detail["judgement"]["spec_fail"][:2]))
+                    spec_found = True
+                elif detail["tie_fails"]:
+                    tie_broken.append((rec["build"], detail["judgement"]["tie_fail"]))
+            ctx.count_case(["corpus", f], nontrivial=True)
+            ncorpus += 1
+        ctx.stream_stat("corpus", cases=ncorpus)
     # -- value streams ------------------------------------------------------------------------
     if os.path.exists(DRV):
         for build in BUILDS:
@@ -900,24 +927,6 @@ def run(ctx):
     # -- program streams ----------------------------------------------------------------------
     tmp = tempfile.mkdtemp(prefix="c14_")
     try:
-        corpus = os.path.join(common.VERIF, "corpus", PROP)
-        ncorpus = 0
-        if os.path.isdir(corpus):
-            for f in sorted(os.listdir(corpus)):
-                rec = json.load(open(os.path.join(corpus, f)))
-                if rec.get("engine") == "program" and program_fails(rec["source"], rec.get("expect")):
-                    ctx.violation("corpus_" + f.replace(".json", ""), dict(rec, kind="implementation-vs-spec", what="corpus case fails again"))
-                    spec_found = True
-                elif rec.get("engine") == "value":
-                    fails, detail = confirm_value(rec["build"], rec["specs"])
-                    if fails:
-                        ctx.violation("corpus_" + f.replace(".json", ""), dict(rec, kind="implementation-vs-spec", what="corpus case fails again",
-                                                                              first=detail["judgement"]["spec_fail"][:2]))
-                        spec_found = True
-                    elif detail["tie_fails"]:
-                        tie_broken.append((rec["build"], detail["judgement"]["tie_fail"]))
-                ncorpus += 1
-            ctx.stream_stat("corpus", cases=ncorpus)
         fail = program_stream(ctx, ctx.n(400, 25000), tmp)
         if fail:
             report_program_failure(ctx, fail, "programs")
@@ -943,7 +952,7 @@ def run(ctx):
                                                    "specs": t[0].get("specs", []), "first": t[:3]}, no_input=True)
     ctx.assumptions += [
         "the boxed half of the model is generated from value.rs by tools/translate.py (trusted); its agreement with the compiled code is sampled by the value stream, not proved",
-        "Rust's derived PartialEq/Hash on `struct Value(u64)` and on `ObjectRef` are bitwise/by-address (std semantics), `f64 ==` is IEEE-754, `f64 as u64` saturates: each is checked on the value stream",
+        "Rust's `==`/Hash on u64 and the derived PartialEq/Hash on `ObjectRef` are bitwise/by-address (std semantics), the derived Hash of the field-less `ValueKind` writes its discriminant, `f64 ==` is IEEE-754 and `f64 as u64` saturates (Model/Ieee64.lean): each is checked on the value stream",
         "IEEE-754 binary64 arithmetic is identical in Rust, Lean's Float (Spec self-check) and Python floats (program oracle)",
         "pointers handed out by the allocator are below 2^50 (ptrOk): observed on every harness object, not proved",
         "program-level agreement of the two builds is sampled (generated programs + fixture corpus), not proved; no LayRef oracle is used here",
